@@ -91,6 +91,9 @@ def main():
     ap.add_argument("--tests", action="store_true")
     ap.add_argument("--json")
     a = ap.parse_args()
+    b = subprocess.run(["go", "build", "-o", os.path.join(VERIF, "bin", "bscheck"), "."], cwd=os.path.join(VERIF, "checker"), env=env(), capture_output=True, text=True)
+    if b.returncode != 0:
+        print("checker build failed:\n" + b.stderr); sys.exit(2)
     vs = load()
     def want(v):
         props = v["property"] if isinstance(v["property"], list) else [v["property"]]
